@@ -187,8 +187,19 @@ impl SimScheduler {
     }
 }
 
-fn default_choice(runnable: &[&Task], current: Option<TaskId>) -> TaskId {
+/// Run-to-block default: keep the current task while it can run. A task that *yields*
+/// (spin / poll loops, `sleep`, timed receives) hands over to the next runnable task in
+/// cyclic id order, so that polling code makes progress under the deterministic
+/// personalities too instead of spinning into the step bound.
+fn default_choice(runnable: &[&Task], current: Option<TaskId>, is_yielding: bool) -> TaskId {
     if let Some(c) = current {
+        if is_yielding && runnable.len() > 1 {
+            let ci = usize::from(c);
+            let mut ids: Vec<usize> = runnable.iter().map(|t| usize::from(t.id())).collect();
+            ids.sort_unstable();
+            let next = ids.iter().copied().find(|i| *i > ci).unwrap_or(ids[0]);
+            return TaskId::from(next);
+        }
         if runnable.iter().any(|t| t.id() == c) {
             return c;
         }
@@ -214,7 +225,7 @@ impl Scheduler for SimScheduler {
     ) -> Option<TaskId> {
         let step = self.step;
         self.step += 1;
-        let dflt = default_choice(runnable, current);
+        let dflt = default_choice(runnable, current, is_yielding);
         let is_runnable = |id: u32| runnable.iter().any(|t| usize::from(t.id()) as u32 == id);
         let uniform = |rng: &mut Rng| runnable[rng.below(runnable.len() as u64) as usize].id();
         let mut diverged = false;
